@@ -63,7 +63,7 @@ impl Prop for C09 {
     }
     fn rule(&self) -> String {
         "Generated: Decimal representations (all coefficient classes plus 2^a*5^b*m gcd stress up to 2^126 / 5^18 and m*10^k trailing zeros); for each the normalised base value and ALL its equal-valued representations (c0*10^k, f0+k) with f0+k <= 18 that fit are formed. \
-         Hash (std DefaultHasher with fixed keys) must be identical across all representations and equal to the hash of the (numerator, denominator) tuple; a recording Hasher (method name and bytes of every write_* call) must see the same call sequence for all representations, and the same for element-wise equal slices through hash_slice (Vec / array keys); a HashSet holding one representation must contain every other. \
+         Hash (std DefaultHasher with fixed keys) must be identical across all representations and equal to the hash of the (numerator, denominator) tuple; a recording Hasher (method name and bytes of every write_* call) must see the same call sequence for all representations, and the same for element-wise equal slices through hash_slice (Vec / array keys), also slices mixing the value with related other values (same raw coefficient at another scale, negation, +1 ulp, zero); a HashSet holding one representation must contain every other. \
          as_integer_ratio / numerator / denominator must equal (c/g, 10^f/g) with g from Euclid's algorithm on big integers, d > 0, gcd 1; integers of the 9 types give (i, 1). \
          Non-trivial: at least two representations exist or g > 1. Distinct: hash of the case."
             .into()
@@ -169,6 +169,38 @@ impl Prop for C09 {
                     let mut set: HashSet<Decimal> = HashSet::new();
                     set.insert(dec);
                     let rec0 = record(&dec);
+                    // (done for the first and the last representation only: cost)
+                    let slice_rec = |v: &[Decimal]| {
+                        let mut a = Recorder::default();
+                        Hash::hash_slice(v, &mut a);
+                        a.calls
+                    };
+                    for r in [reprs.first(), reprs.last()].into_iter().flatten() {
+                        let rd = r.dec();
+                        // slices that mix DIFFERENT values: neighbours y related to x (the same raw
+                        // coefficient at another scale, the negation, x + 1 ulp, zero); replacing an
+                        // element by an equal-valued representation must not change what is fed
+                        let others = [
+                            D::new(x.c, (x.s + 1) % 19),
+                            D::new(x.c, (x.s + 18) % 19),
+                            D::new(-x.c, x.s),
+                            D::new(x.c.saturating_add(1).min(MAXC), x.s),
+                            D::new(0, x.s),
+                        ];
+                        for y in others {
+                            let yd = y.dec();
+                            for (what, a, b) in [("[x, y] vs [r, y]", [dec, yd], [rd, yd]), ("[y, x] vs [y, r]", [yd, dec], [yd, rd]), ("[x, y, x] vs [r, y, r]", [dec, yd], [rd, yd])] {
+                                let (ra, rb) = if what.starts_with("[x, y, x]") {
+                                    (slice_rec(&[a[0], a[1], a[0]]), slice_rec(&[b[0], b[1], b[0]]))
+                                } else {
+                                    (slice_rec(&a), slice_rec(&b))
+                                };
+                                if ra != rb {
+                                    bad.push(format!("hash_slice {what} with y = {y}, r = {r}: {ra:?} versus {rb:?} although the slices are element-wise equal"));
+                                }
+                            }
+                        }
+                    }
                     for r in &reprs {
                         let rd = r.dec();
                         let hv = h(&rd);
